@@ -128,6 +128,84 @@ func runC03(ctx *core.Ctx, idx int) *core.Result {
 		siteCensus(ctx, idx, res, g)
 		return res
 	}
+	if idx%25 == 3 {
+		// list patterns in which a metavariable bound early is used again behind sections that do not mention it, with
+		// a second repeated metavariable whose name sorts before or after it: every site is rewritten with the bindings
+		// it matched with, also when the search had to come back to a section under another binding
+		if idx%50 == 3 {
+			c := g.SharedSectionsChange()
+			var srcs, extra []string
+			for f := 0; f < 4; f++ {
+				plants, _ := g.InstancePlants(c, 1+r.Intn(3), r.Intn(2))
+				srcs = append(srcs, g.File(gen.FileOpts{Plants: plants}))
+				extra = append(extra, "shared-sections")
+			}
+			semBatch(ctx, idx, res, c, srcs, extra, idx%100 == 3, "C03")
+			return res
+		}
+		nm := [][2]string{{"a", "x"}, {"n", "k"}, {"zed", "addr"}, {"x", "a"}, {"m1", "m0"}}[r.Intn(5)]
+		A, X := "«"+nm[0]+"»", "«"+nm[1]+"»"
+		var c *gen.Change
+		var mkSite func() string
+		atoms := []string{"A", "B", "C", "1", "2", "3", "s.f", "q()"}
+		pick := func() string { return atoms[r.Intn(len(atoms))] }
+		if r.Intn(2) == 0 {
+			c = &gen.Change{Kind: "expr", Schema: "c03-early-binding-used-late", Meta: []gen.MetaVar{{Name: nm[0], Kind: "expression"}, {Name: nm[1], Kind: "expression"}},
+				Lines: []gen.Line{gen.L('-', "tgtF("+A+", ‹1:args›, pr("+A+", "+X+"), ‹2:args›, mark(), ‹3:args›, hh("+X+"))"), gen.L('+', "replG("+A+", "+X+")")}}
+			mkSite = func() string {
+				a := pick()
+				var mid []string
+				n := 1 + r.Intn(4)
+				last := ""
+				for i := 0; i < n; i++ {
+					last = fmt.Sprint(i + 1)
+					first := a
+					if r.Intn(4) == 0 {
+						first = pick()
+					}
+					mid = append(mid, "pr("+first+", "+last+")")
+				}
+				want := last
+				if r.Intn(3) == 0 {
+					want = fmt.Sprint(1 + r.Intn(n+1)) // any of the candidates, or none
+				}
+				return "tgtF(" + a + ", " + strings.Join(mid, ", ") + ", mark(), hh(" + want + "))"
+			}
+		} else {
+			c = &gen.Change{Kind: "expr", Schema: "c03-early-binding-used-late", Meta: []gen.MetaVar{{Name: nm[0], Kind: "expression"}, {Name: nm[1], Kind: "expression"}},
+				Lines: []gen.Line{gen.L('-', "tgtF(‹1:args›, pr("+A+", "+A+"), ‹2:args›, qq("+X+"), ‹3:args›, mark(), ‹4:args›, hh("+X+"), ‹5:args›)"), gen.L('+', "replG("+A+", "+X+")")}}
+			mkSite = func() string {
+				var parts []string
+				n := 1 + r.Intn(3)
+				last := ""
+				for i := 0; i < n; i++ {
+					p := pick()
+					q := p
+					if r.Intn(4) == 0 {
+						q = pick()
+					}
+					last = fmt.Sprint(i + 1)
+					parts = append(parts, "pr("+p+", "+q+")", "qq("+last+")")
+				}
+				want := last
+				if r.Intn(3) == 0 {
+					want = fmt.Sprint(1 + r.Intn(n+1))
+				}
+				return "tgtF(" + strings.Join(parts, ", ") + ", mark(), hh(" + want + "))"
+			}
+		}
+		var srcs, extra []string
+		for f := 0; f < 4; f++ {
+			var plants []gen.Plant
+			for p := 0; p < 2+r.Intn(4); p++ {
+				plants = append(plants, gen.Plant{Kind: "expr", Text: mkSite()})
+			}
+			srcs = append(srcs, g.File(gen.FileOpts{Plants: plants}))
+			extra = append(extra, "early-binding-used-late")
+		}
+		semBatch(ctx, idx, res, c, srcs, extra, idx%100 == 53, "C03")
+		return res
+	}
 	switch idx % 5 {
 	case 0, 1:
 		// instantiate with multiplicities / precedence
